@@ -13,6 +13,8 @@
 (*                  cyclic references) - unless a subscription it is parked  *)
 (*                  on is disposed (WithDispose, finding KF-H: negative      *)
 (*                  check)                                                   *)
+(* WithUnsend = TRUE adds the Unsend path of finding KF-U: Complete fails    *)
+(* (second negative check).                                                  *)
 (***************************************************************************)
 EXTENDS SubReadyOps, TLC
 
@@ -20,7 +22,10 @@ CONSTANTS Nodes,        \* resource ids
           Graphs,       \* the reference graphs to explore: functions Nodes -> SUBSET Nodes
           MaxReq,       \* OnReady calls (client requests and new references of events)
           Fails,        \* resources whose load may fail
-          WithDispose   \* TRUE: a root may be disposed while loading (finding KF-H: AllFire is then violated)
+          WithDispose,  \* TRUE: a root may be disposed while loading (finding KF-H: Counted / AllFire are then violated)
+          WithUnsend    \* TRUE: a sent subscription may be marked unsent (Unsend) and goes on processing events (finding
+                        \* KF-U): a reference such an event brings is still loading when the subscription is sent again,
+                        \* and is marked sent with it - Complete is then violated
 
 VARIABLES S, nreq, Graph
 vars == <<S, nreq, Graph>>
@@ -42,7 +47,7 @@ Request(n) ==
 (* c has been sent already (processCollectionEvent / processModelEvent)                                       *)
 EventAdd(p, c) ==
     /\ nreq < MaxReq
-    /\ S.st[p] = "sent" /\ c \notin S.refs[p] /\ S.st[c] # "disposed"
+    /\ (S.st[p] = "sent" \/ (WithUnsend /\ S.st[p] = "ready" /\ ~S.err[p])) /\ c \notin S.refs[p] /\ S.st[c] # "disposed"
     /\ LET S1 == [S EXCEPT !.refs[p] = @ \cup {c}, !.st[c] = IF @ = "none" THEN "loading" ELSE @]
        IN S' = IF S1.st[c] = "sent" THEN S1 ELSE SROnReady(S1, nreq + 1, c)
     /\ nreq' = nreq + 1 /\ UNCHANGED Graph
@@ -50,11 +55,15 @@ EventAdd(p, c) ==
 LoadOK(n) == S.st[n] = "loading" /\ S' = SRLoadedOK(S, n, Graph[n]) /\ UNCHANGED <<nreq, Graph>>
 LoadErr(n) == S.st[n] = "loading" /\ n \in Fails /\ S' = SRLoadedErr(S, n) /\ UNCHANGED <<nreq, Graph>>
 
+(* the collector marks a sent subscription unsent (wsConnGC tryDelete -> Unsend): stateReady, events keep flowing *)
+Unsend(n) == /\ WithUnsend /\ S.st[n] = "sent"
+             /\ S' = [S EXCEPT !.st[n] = "ready"] /\ UNCHANGED <<nreq, Graph>>
+
 (* the client gives up a root that nothing else refers to while it is loading *)
 Dispose(n) == /\ WithDispose /\ S.st[n] = "loading" /\ \A m \in Nodes : n \notin S.refs[m]
               /\ S' = SRDispose(S, n) /\ UNCHANGED <<nreq, Graph>>
 
-Next == \E n \in Nodes : Request(n) \/ LoadOK(n) \/ LoadErr(n) \/ Dispose(n) \/ \E c \in Nodes : EventAdd(n, c)
+Next == \E n \in Nodes : Request(n) \/ LoadOK(n) \/ LoadErr(n) \/ Dispose(n) \/ Unsend(n) \/ \E c \in Nodes : EventAdd(n, c)
 Spec == Init /\ [][Next]_vars /\ \A n \in Nodes : WF_vars(LoadOK(n))
 
 FireOnce == \A i \in DOMAIN S.rcb : S.rcb[i].fired <= 1
